@@ -43,18 +43,36 @@ const (
 )
 
 // denoms by model index
-var denoms = []string{"bnb", "btcb", "erc20/usdc", "hard", "usdx", "xrpb", "xyz"}
+// denoms by model index: 0..6 the real ones, then look-alikes of every pair denom and of
+// every cosmos denom that can be allowed (a case variant and a prefix/suffix variant each).
+// A look-alike is an ordinary bank denom: it is never a pair denom, never a bep3 asset,
+// never on the allow list, so every conversion of it must be refused.
+var denoms = []string{"bnb", "btcb", "erc20/usdc", "hard", "usdx", "xrpb", "xyz",
+	"BNB", "bnbx", "BTCB", "btc", "ERC20/USDC", "erc20/usd", "HARD", "hardx", "USDX", "usd", "XRPB", "xrpbx"}
 
-const nDenom = 7
+const (
+	nDenom    = 19
+	nRealDen  = 7
+	firstLook = 7
+)
+
+// lookalikes[d] = indexes of the look-alike denoms of real denom d
+var lookalikes = map[int][]int{0: {7, 8}, 1: {9, 10}, 2: {11, 12}, 3: {13, 14}, 4: {15, 16}, 5: {17, 18}}
 
 // universe of EVM-native conversion pairs: pair contract id -> denom index
 var pairDenom = []int{0, 2, 1} // contract 0 <-> bnb (bep3), 1 <-> erc20/usdc, 2 <-> btcb (bep3)
 
-// the keeper's bep3 denoms that occur here (bnb, btcb, xrpb)
-var isBep3 = []bool{true, true, false, false, false, true, false}
+func padBools(b []bool) []bool {
+	out := make([]bool, nDenom)
+	copy(out, b)
+	return out
+}
+
+// the keeper's bep3 denoms that occur here (bnb, btcb, xrpb): exact names only
+var isBep3 = padBools([]bool{true, true, false, false, false, true, false})
 
 // cosmos denoms for which token metadata exists (can be put on the allow list)
-var allowable = []bool{true, false, false, true, true, true, false}
+var allowable = padBools([]bool{true, false, false, true, true, true, false})
 
 var k10 = Pow10(10)
 
@@ -102,6 +120,12 @@ func setup() *world {
 			sdk.NewInt64Coin("xyz", 77),
 			sdk.NewInt64Coin("ukava", 1_000_000_000),
 		)
+		// look-alike denoms, held through the bank by some users
+		for d := firstLook; d < nDenom; d++ {
+			if (d+i)%2 == 0 {
+				funds = funds.Add(sdk.NewInt64Coin(denoms[d], int64(100*(i+1)+d)))
+			}
+		}
 		b.WithSimpleAccount(users[i], funds)
 	}
 	gs := app.GenesisState{
@@ -174,7 +198,7 @@ func setup() *world {
 		w.ctr = append(w.ctr, addr)
 	}
 	w.enabled = []bool{true, true, false}
-	w.allowed = []bool{false, false, false, true, false, true, false}
+	w.allowed = padBools([]bool{false, false, false, true, false, true, false})
 	w.setParams()
 	return w
 }
